@@ -97,14 +97,14 @@ func linEntails(facts []lin, goal lin) bool {
 }
 
 type linAn struct {
-	b      *Body
-	fn     *ssa.Function
-	exprs  map[ssa.Value]lin
-	stored map[string]bool // field names the function stores to (their lengths are not stable)
-	inLen  map[ssa.Value]bool
-	storesTo map[string][]ssa.Instruction
-	callMemo map[*ssa.Call][]lin
-	callBusy map[*ssa.Call]bool
+	b         *Body
+	fn        *ssa.Function
+	exprs     map[ssa.Value]lin
+	stored    map[string]bool // field names the function stores to (their lengths are not stable)
+	inLen     map[ssa.Value]bool
+	storesTo  map[string][]ssa.Instruction
+	callMemo  map[*ssa.Call][]lin
+	callBusy  map[*ssa.Call]bool
 	reachMemo map[*ssa.BasicBlock]map[*ssa.BasicBlock]bool
 }
 
@@ -781,13 +781,13 @@ func (a *linAn) describeBase(v ssa.Value) string {
 
 // reviewed exceptions: function + collection role -> the invariant relied upon
 var boundsExceptions = map[string]string{
-	"(*lazyNode).equal|o.ary.nodes":       "the two lengths are compared immediately before the loop (len(n.ary.nodes) != len(o.ary.nodes) returns false); the loop body only parses descendants of the two trees, never their element slices",
-	"(*partialDoc).remove|d.keys":         "relies on R-KEYS: the key was found in obj (comma-ok) so the scan of keys finds its index (set(keys) = dom(obj))",
-	"(*partialArray).set|d.nodes":         "relies on R-REPLACE: every set on an array is dominated by a successful get of the same container and key, which bounds the index from above",
-	"createArrayMergePatch|local:":        "the decoder fills both local slices; their lengths are compared (len(modifiedDocs) != total returns an error) before the pairwise walk",
-	"createArrayMergePatch|originalDocs":  "the decoder fills both local slices; their lengths are compared (len(modifiedDocs) != total returns an error) before the pairwise walk",
-	"createArrayMergePatch|modifiedDocs":  "the decoder fills both local slices; their lengths are compared (len(modifiedDocs) != total returns an error) before the pairwise walk",
-	"legacy|(*partialArray).set|":         "relies on R-REPLACE (legacy): set is preceded by a successful get",
+	"(*lazyNode).equal|o.ary.nodes":      "the two lengths are compared immediately before the loop (len(n.ary.nodes) != len(o.ary.nodes) returns false); the loop body only parses descendants of the two trees, never their element slices",
+	"(*partialDoc).remove|d.keys":        "relies on R-KEYS: the key was found in obj (comma-ok) so the scan of keys finds its index (set(keys) = dom(obj))",
+	"(*partialArray).set|d.nodes":        "relies on R-REPLACE: every set on an array is dominated by a successful get of the same container and key, which bounds the index from above",
+	"createArrayMergePatch|local:":       "the decoder fills both local slices; their lengths are compared (len(modifiedDocs) != total returns an error) before the pairwise walk",
+	"createArrayMergePatch|originalDocs": "the decoder fills both local slices; their lengths are compared (len(modifiedDocs) != total returns an error) before the pairwise walk",
+	"createArrayMergePatch|modifiedDocs": "the decoder fills both local slices; their lengths are compared (len(modifiedDocs) != total returns an error) before the pairwise walk",
+	"legacy|(*partialArray).set|":        "relies on R-REPLACE (legacy): set is preceded by a successful get",
 }
 
 func ruleBounds(c *Ctx) {
@@ -1113,7 +1113,6 @@ func ruleNegIdx(c *Ctx) {
 	}
 }
 
-
 // appendTokenObligation: the RFC 6902 token "-" (the position after the last
 // element) appends in its own right. It is not an index: the branch taken for
 // it reaches an append of the value onto the element slice and a nil return,
@@ -1208,7 +1207,6 @@ func (b *Body) appendTokenObligation(l *Ledger) {
 		l.add("R-NEGIDX", b.Name, key, b.posOf(blk.Instrs[len(blk.Instrs)-1]), Discharged, "key == \"-\" → append(d.nodes, val); return nil — no number parsing, no option on that path", true)
 	}
 }
-
 
 // addRangeObligation: an add at a parsed index succeeds only for an index up
 // to the length of the array (index == length appends; anything beyond is an
@@ -1306,7 +1304,6 @@ func (b *Body) addRangeObligation(l *Ledger) {
 	}
 }
 
-
 // nodeTextDerived: v is (a conversion, slice or phi of) the bytes a lazyNode's
 // raw message points to, or the result of the compact role applied to a node.
 func (b *Body) nodeTextDerived(v ssa.Value, depth int) bool {
@@ -1377,7 +1374,6 @@ func (b *Body) nodeTextDerived1(v ssa.Value, depth int, onPath map[ssa.Value]boo
 	}
 	return false
 }
-
 
 // substitute replaces the helper's parameter symbols by the caller's argument forms.
 func linSubst(l lin, m map[string]lin) (lin, bool) {
@@ -1514,15 +1510,14 @@ func (a *linAn) callFacts(call *ssa.Call) []lin {
 	try(func(v lin) lin { return v }) // r >= 0
 	for _, u := range uppers {
 		u := u
-		try(func(v lin) lin { return u.add(v, -1) })                         // u - r >= 0
-		try(func(v lin) lin { return u.add(v, -1).add(linConst(1), -1) })     // u - r - 1 >= 0
-		try(func(v lin) lin { return v.add(u, -1) })                         // r - u >= 0
-		try(func(v lin) lin { return u.add(v, -1).add(linConst(1), 1) })      // u - r + 1 >= 0
+		try(func(v lin) lin { return u.add(v, -1) })                      // u - r >= 0
+		try(func(v lin) lin { return u.add(v, -1).add(linConst(1), -1) }) // u - r - 1 >= 0
+		try(func(v lin) lin { return v.add(u, -1) })                      // r - u >= 0
+		try(func(v lin) lin { return u.add(v, -1).add(linConst(1), 1) })  // u - r + 1 >= 0
 	}
 	a.callMemo[call] = out
 	return out
 }
-
 
 // negIdxThroughHelper: the parsed index is handed to a helper of the library
 // that holds the `index < 0` branch. Inside the helper: on the negative edge
@@ -1660,7 +1655,6 @@ func (b *Body) negIdxThroughHelper(fn *ssa.Function, idx ssa.Value) (bool, strin
 	}
 	return false, "", ""
 }
-
 
 // loadRepresentative: the earliest load of the same field of the same base that dominates
 // x and from which x cannot be reached by way of a store to the field without passing that
